@@ -31,7 +31,7 @@ COMPONENTS = {"real": ["TradingEnv", "Transmitter", "Broker", "TrackRecord", "Re
               "harness": ["recording observers", "independent Fraction ledger", "reward model"], "stub": []}
 PROBE_FLOORS = {"step_without_trade": 100, "fees_positive": 300, "delay_positive": 97, "reward_clipped": 20,
                 "reward_negative_with_risk_aversion": 20, "interest_credited": 100, "compounding_checked": 16,
-                "own_costs_ruin_injected": 19, "futures_chain_world": 45, "feature_values_account_at_every_quote": 80, "xy_rewards_checked": 45, "xy_reward_clip_binds": 150}
+                "own_costs_ruin_injected": 19, "futures_chain_world": 45, "feature_values_account_at_every_quote": 80, "xy_rewards_checked": 45, "xy_reward_clip_binds": 150, "snapshot_with_margins_consistent": 2500, "entries_reread_at_the_end": 250}
 
 PROFILE = {
     "n_min": 3, "n_max": 12, "n_long": 40, "p_long": 0.1, "c_min": 1, "c_max": 3, "p_bar": 1.0, "extras_max": 8,
